@@ -46,18 +46,19 @@ type vobRoot struct {
 	Stream  bool   `json:"stream"`
 }
 type vobOblig struct {
-	ID      int      `json:"id"`
-	Root    vobRoot  `json:"root"`
-	Path    []string `json:"path"`
-	Leaf    string   `json:"leaf"`
-	Reached bool     `json:"reached"`
-	Skipped bool     `json:"skipped"`
-	InBlob  bool     `json:"inblob"`
-	Value   string   `json:"value"`   // namespace name to put at the leaf (ns) / unused (sa)
-	Mode    string   `json:"mode"`    // "" = translation; "acl" = translation followed by the access-control interceptor
-	Bypass  bool     `json:"bypass"`  // request carries the translation-bypass header
-	Solo    bool     `json:"solo"`    // only the translator under test is configured (names only / search attributes only)
-	Variant string   `json:"variant"` // "" | "tail" | "dirty" | "json" | "fill" (sibling namespace fields hold an unmapped name)
+	ID      int        `json:"id"`
+	Root    vobRoot    `json:"root"`
+	Path    []string   `json:"path"`
+	Leaf    string     `json:"leaf"`
+	Reached bool       `json:"reached"`
+	Skipped bool       `json:"skipped"`
+	InBlob  bool       `json:"inblob"`
+	Value   string     `json:"value"`   // namespace name to put at the leaf (ns) / unused (sa)
+	Mode    string     `json:"mode"`    // "" = translation; "acl" = translation followed by the access-control interceptor
+	Bypass  bool       `json:"bypass"`  // request carries the translation-bypass header
+	Paths   [][]string `json:"paths"`   // mode "populate": every path of this root to a namespace leaf, all realised in ONE message
+	Solo    bool       `json:"solo"`    // only the translator under test is configured (names only / search attributes only)
+	Variant string     `json:"variant"` // "" | "tail" | "dirty" | "json" | "fill" (sibling namespace fields hold an unmapped name)
 }
 
 const (
@@ -474,6 +475,92 @@ func vobRunACL(tr *TranslationInterceptor, acl *AccessControlInterceptor, ob vob
 	return rec
 }
 
+// vobScan walks a message by its descriptor (independent of the proxy's Go-field-name tables), opens event blobs, and counts the
+// values found at namespace-name fields (descriptor rule of vscClassify).
+func vobScan(m protoreflect.Message, counts map[string]int, depth int) {
+	if depth > 40 {
+		return
+	}
+	md := m.Descriptor()
+	m.Range(func(fd protoreflect.FieldDescriptor, v protoreflect.Value) bool {
+		ns, blob, _ := vscClassify(md, fd)
+		switch {
+		case ns:
+			counts[v.String()]++
+		case blob:
+			scanBlob := func(b *commonpb.DataBlob) {
+				evs, err := serializer.DeserializeEvents(b)
+				if err != nil {
+					counts["undecodable-blob"]++
+					return
+				}
+				vobScan((&historypb.History{Events: evs}).ProtoReflect(), counts, depth+1)
+			}
+			if fd.IsList() {
+				for i := 0; i < v.List().Len(); i++ {
+					scanBlob(v.List().Get(i).Message().Interface().(*commonpb.DataBlob))
+				}
+			} else {
+				scanBlob(v.Message().Interface().(*commonpb.DataBlob))
+			}
+		case fd.IsList() && fd.Kind() == protoreflect.MessageKind:
+			for i := 0; i < v.List().Len(); i++ {
+				vobScan(v.List().Get(i).Message(), counts, depth+1)
+			}
+		case fd.IsMap() && fd.MapValue().Kind() == protoreflect.MessageKind:
+			v.Map().Range(func(_ protoreflect.MapKey, mv protoreflect.Value) bool {
+				vobScan(mv.Message(), counts, depth+1)
+				return true
+			})
+		case fd.Kind() == protoreflect.MessageKind && !fd.IsList() && !fd.IsMap():
+			vobScan(v.Message(), counts, depth+1)
+		}
+		return true
+	})
+}
+
+// vobRunPopulate: every namespace leaf of the root type in one message; the record holds the counts of names found at
+// namespace fields before and after the real translation.
+func vobRunPopulate(ic *TranslationInterceptor, ob vobOblig) map[string]interface{} {
+	rec := map[string]interface{}{"ev": "Populate", "id": ob.ID, "type": ob.Root.Type, "service": ob.Root.Service, "dir": ob.Root.Dir, "stream": ob.Root.Stream,
+		"paths": len(ob.Paths), "built": false, "err": "", "inLocal": 0, "outLocal": 0, "outRemote": 0, "outOther": 0}
+	defer func() {
+		if r := recover(); r != nil {
+			rec["err"] = fmt.Sprint("panic: ", r)
+		}
+	}()
+	m, err := vobNew(ob.Root.Type)
+	if err != nil {
+		rec["err"] = "build: " + err.Error()
+		return rec
+	}
+	for _, p := range ob.Paths {
+		if err := vobBuild(m, p, "ns-recognised", vobNsLocal); err != nil {
+			rec["err"] = "build: " + err.Error()
+			return rec
+		}
+	}
+	rec["built"] = true
+	in := map[string]int{}
+	vobScan(m, in, 0)
+	rec["inLocal"] = in[vobNsLocal]
+	res, err := vobTranslate(ic, ob.Root, m.Interface())
+	if err != nil {
+		rec["err"] = "translate: " + err.Error()
+		return rec
+	}
+	out := map[string]int{}
+	vobScan(res.ProtoReflect(), out, 0)
+	other := 0
+	for k, n := range out {
+		if k != vobNsLocal && k != vobNsRemote && k != "" {
+			other += n
+		}
+	}
+	rec["outLocal"], rec["outRemote"], rec["outOther"] = out[vobNsLocal], out[vobNsRemote], other
+	return rec
+}
+
 // vobRunACLEmpty pushes an empty request of the obligation's method (no namespace named anywhere) through translation and
 // access control; the result is not recorded.
 func vobRunACLEmpty(tr *TranslationInterceptor, acl *AccessControlInterceptor, ob vobOblig) error {
@@ -540,6 +627,10 @@ func TestVerifSchemaObligations(t *testing.T) {
 		var ob vobOblig
 		if err := json.Unmarshal(sc.Bytes(), &ob); err != nil {
 			t.Fatalf("bad obligation: %v", err)
+		}
+		if ob.Mode == "populate" {
+			_ = enc.Encode(vobRunPopulate(ic, ob))
+			continue
 		}
 		if ob.Mode == "acl" {
 			// the access-control interceptor must not remember anything about a method either: the first time a method is seen
